@@ -216,7 +216,7 @@ fn parse_case(text: &str) -> Option<Case> {
                     c.first.push(toks);
                     continue;
                 }
-                if is_in(&toks[0], &["pl", "cs", "hd"]) && tag != "C" {
+                if is_in(&toks[0], &["pl", "cs", "hd", "plc"]) && tag != "C" {
                     return None;
                 }
                 match tag {
@@ -310,6 +310,10 @@ fn render_op(t: &[String]) -> Option<String> {
         ("pl", 1) => ": | :".to_string(),
         ("cs", 1) => ": \"$(:)\"".to_string(),
         ("hd", 1) => "probe THD <<E\nx\nE".to_string(),
+        // a three-member pipeline started with fd 1 CLOSED: the first pipe's read end is descriptor 1, so the middle member
+        // takes the `read_previous == Some(Fd::STDOUT)` branch of `move_to_stdin_stdout` (pipeline.rs); the marker must come
+        // out at the other end (through fd 9, a copy of the real stdout)
+        ("plc", 1) => "exec 9>&1 1>&-\nprobe TPC | cat | cat >&9\nexec 1>&9 9>&-".to_string(),
         _ => return None,
     })
 }
@@ -945,6 +949,8 @@ fn oracle(c: &Case, r: &Run, control: Option<&Run>) -> String {
             "fdw" | "fdr" | "fdc" => (t[1] == "20" && limit_lowered) || (t[1] == "10" && c.tty),
             "fdd" => (t[1] == "20" && limit_lowered) || is_in(&t[2], &FDS),
             "opt+" | "opt-" => portable_on && is_in(&t[1], &NONPORTABLE_OPTS),
+            // (no positional parameter left)
+            "shift" => true,
             _ => false,
         })
     };
@@ -1236,7 +1242,7 @@ impl yash_env::system::r#virtual::Executor for NullExecutor {
     }
 }
 
-const XDIRS: [&str; 6] = ["/d1", "/d2", "/d1/s", "s", ".", "/dx"];
+const XDIRS: [&str; 10] = ["/d1", "/d2", "/d1/s", "s", ".", "/dx", "..", "/d1/s/..", "../d2", "/.."];
 const XFDS: [&str; 9] = ["0", "1", "2", "3", "4", "5", "10", "17", "20"];
 const XLIMITS: [&str; 4] = ["4", "16", "18", "unlimited"];
 const XSIGS: [&str; 5] = ["INT", "QUIT", "TERM", "URG", "USR1"];
@@ -1636,7 +1642,10 @@ fn gen_op(rng: &mut Rng, abs: &mut Abs, fam: usize, phase: char) -> Option<Strin
             format!("opt{} {}", if on { "+" } else { "-" }, o)
         }
         9 => {
-            if abs.nparams > 0 && rng.chance(1, 2) {
+            if abs.nparams == 0 && may_fail && rng.chance(1, 6) {
+                // no positional parameter left: an error of the special built-in, the subshell exits (status 1) here
+                "shift".to_string()
+            } else if abs.nparams > 0 && rng.chance(1, 2) {
                 abs.nparams -= 1;
                 "shift".to_string()
             } else {
@@ -2242,6 +2251,23 @@ fn main() {
                     };
                     cases.push(format!("{pro}; {}; {a2}; {c2}", ks.join("; ")));
                 }
+            }
+        }
+    }
+    // (1j) coverage triage of session 4: `shift` with no positional parameter left (special built-in error: the subshell
+    // exits with status 1 after ITS exit trap) at the innermost and at the middle level; a three-member pipeline started
+    // with fd 1 closed (`plc`: the `read_previous == Some(Fd::STDOUT)` corner of `move_to_stdin_stdout`) in every kind
+    for (i, k) in KINDS.iter().enumerate() {
+        let k2 = KINDS[(i + 3) % nk];
+        for (v, pro) in ["", "P:args 1; ", "P:trap EXIT c1; P:args 1 two; "].iter().enumerate() {
+            let shifts = ["C:shift", "C:shift; C:shift", "C:shift; C:shift; C:shift"][v];
+            cases.push(format!("{pro}K:{k}; C:trap EXIT c4; {shifts}; C:set va 1"));
+            cases.push(format!("{pro}K:{k}; K:{k2}; M:{}; C:set va 1", shifts.replace("C:", "M:").replace("; ", "; ")));
+        }
+        for pro in ["", "P:fdw 3 f1; P:nofile 16; ", "T:1; P:opt+ monitor; ", "P:fdc 3; P:trap EXIT c2; "] {
+            cases.push(format!("{pro}K:{k}; C:plc; C:set va 1; C:plc"));
+            if o.thorough() || pro.is_empty() {
+                cases.push(format!("{pro}K:{k2}; K:{k}; M:umask 027; C:umask 077; C:plc"));
             }
         }
     }
